@@ -14,7 +14,7 @@ pos_token pos_skip pos_stuck_past_end_accessors pos_stuck_past_end_decodeT pos_s
 alloc_linear_decodeT alloc_linear_stringIter alloc_linear_bytes alloc_linear_tokens work_indep_of_declared_count
 repeatN_ok_count work_linear_accessors work_linear_decodeT work_linear_skip work_linear_tokens
 arrayvec_drops_once arrayvec_each_once""".split()]   # see lean/Minicbor/Thm/C02.lean
-PACKAGES = ["hcore"]
+PACKAGES = ["hcore", "hserde"]
 ACCS = ["bool", "u8", "u16", "u32", "u64", "i8", "i16", "i32", "i64", "int", "f16", "f32", "f64", "char", "bytes", "str",
         "bytes_iter", "str_iter", "array", "map", "tag", "null", "undefined", "simple", "datatype", "skip"]
 RULE = ("every decoding entry point on hostile input: (a) every byte string of length <= 2 (quick: second byte stride 3; thorough: all, plus 3-byte samples) x 26 accessors; "
@@ -248,6 +248,26 @@ def streams(rng, tier):
     # built with overflow checks, so arithmetic that would wrap in a release build and panic in a debug build panics here)
     from verifkit.props import C04
     yield C04.iter_stream(rng, tier)
+    # names taken from the input end up in error messages (serde's "unknown variant `..`" / "unknown field `..`" reach decode::Error::message
+    # through the bridge): long names, multi-byte characters at every alignment
+    nops = []
+    for name in ("Color", "Ext", "Point", "ITag", "ATag", "Untagged", "Event", "Record", "WithEnum", "FlatOuter", "UnitS", "tup_color_opt"):
+        for ch in ("a", "\u00e9", "\u20ac", "\U0001f600", "`", "\\"):
+            lens = list(range(0, 40, 7)) + list(range(100, 140)) + [200, 255, 256, 257, 1000, 70000] if name in ("Color", "Point") else [120, 121, 122, 123, 129, 254, 255, 256, 1023, 1024]
+            for k in lens:
+                for pre in ("", "x"):
+                    t = (pre + ch * k).encode()
+                    if len(t) > 80000:
+                        continue
+                    ts = gen.head(3, len(t)) + t
+                    for doc in (ts, b"\xa1" + ts + b"\x05", b"\x81" + ts, b"\xa2" + ts + b"\x05" + ts + b"\x06"):
+                        nops.append(f"de {name} {doc.hex()}")
+    nops = list(dict.fromkeys(nops))
+    s10 = Stream("names-from-the-input-in-error-messages", "hserde", nops, model_ops=["nop"] * len(nops),
+                 judge=lambda op, impl, model, spec: "violation" if impl.startswith(("panic", "crash", "bad-op")) or "panic" in impl.split(" ") else "ok",
+                 rule="the serde bridge decoding enums / structs from text strings and map keys of 0..70000 bytes made of 1-, 2-, 3- and 4-byte characters at both alignments: an answer, no panic")
+    s10.shrinkable = False
+    yield s10
 
 
 def replay_streams(rp):
@@ -255,6 +275,8 @@ def replay_streams(rp):
     if op.startswith("aiter"):
         from verifkit.props import C04
         return C04.replay_streams(rp)
+    if op.startswith("de "):
+        return [Stream("replay", "hserde", [op], model_ops=["nop"], judge=lambda o, i, m, s: "violation" if i.startswith(("panic", "crash", "bad-op")) or "panic" in i.split(" ") else "ok")]
     if op.startswith("display"):
         return [Stream("replay", "hcore", [op], judge=lambda o, i, m, s: "violation" if i.startswith(("overflow", "crash")) or i in ("panic", "fmt-error") else "ok")]
     j = {"dec": judge_acc, "tdecm": judge_tdecm, "seq": judge_seq, "dropcount": judge_drop}.get(op.split(" ")[0])
